@@ -21,6 +21,8 @@ EXIT_OK, EXIT_VIOLATION, EXIT_INCONCLUSIVE, EXIT_HARNESS = 0, 1, 2, 3
 
 def setup_instrumented():
     symnp.install_imports()
+    from pathsym import symre
+    symre.install()
     loader.install()
     # import the instrumented modules once in the parent so that forked workers share them
     import importlib
